@@ -61,6 +61,10 @@ class AnnSet:
         self.PT_PLAIN = PyTree[Shaped[np.ndarray, d("m n")]]
         self.PT_NESTED = PyTree[PyTree[self.Q], "T"]  # the inner check runs as is_leaf of the outer flatten
         self.PT_NESTED_INT = PyTree[PyTree[int]]
+        # value objects shared by all threads (read-only parameters handed to every worker): the same object checked against the same
+        # annotation object by several threads at once
+        self.SHARED_TREES = [[np.zeros((2, 3)), {"k": (np.zeros((4, 3)),)}], [np.zeros((2, 2)), {"k": (np.zeros((3, 2)), np.zeros((4, 2)))}],
+                             [np.zeros((3, 3)), {"k": (np.zeros((3, 3)), np.zeros((2, 3)), np.zeros((2, 3)))}]]
         self.CTX = jaxtyped("context")  # one context-manager object, created by the main thread and entered by the workers
         self.FNS = {}
         ANN, ANN2 = self.ANN, self.ANN2
@@ -127,6 +131,11 @@ def run_items(items, out, A, in_ctx=False):
             if it[3] is not None and len(tree) > it[3]:
                 tree = tree[: it[3]] + (np.zeros((it[1][it[3]], it[2] + 1)),) + tree[it[3] + 1 :]
             v = obs.verdict([tree[0], {"k": tree[1:]}], A.PT_Q)
+        elif k == "pytree-shared":
+            # one shared tree object, then a fresh tree of ANOTHER structure against the same structured annotation (rejected once 'T' is bound)
+            v = obs.verdict(A.SHARED_TREES[it[1]], A.PT_Q)
+            out.append(f"{k}:{v}|{bindings_text()}")
+            v = obs.verdict([np.zeros((2, it[2]))], A.PT_Q)
         elif k == "pytree-plain":
             v = obs.verdict([np.zeros((it[1], it[2])), (np.zeros((it[1], it[2])),)], A.PT_PLAIN)
         elif k == "pytree-nested":
@@ -283,6 +292,7 @@ item_st = st.one_of(
     st.tuples(st.just("pytree-nested"), size, size),
     st.tuples(st.just("pytree-nested-int"), size),
     st.tuples(st.just("q-outside")),
+    st.tuples(st.just("pytree-shared"), st.sampled_from([0, 1, 2]), st.sampled_from([3, 2])),
 )
 items_st = st.lists(st.one_of(item_st, item_st, item_st, st.tuples(st.just("inner-ctx"), st.lists(item_st, min_size=1, max_size=2))), min_size=1, max_size=4)
 block_st = st.one_of(
@@ -297,11 +307,16 @@ block_st = st.one_of(
 dtype_race_block = st.tuples(st.sampled_from(["top", "ctx"]), st.lists(st.one_of(st.tuples(st.just("check"), st.just("a"), size), st.tuples(st.just("check-int"), st.just("a"), size),
                                                                                  st.tuples(st.just("sym"), size, st.sampled_from([0, 0, 1]))),
                                                                        min_size=5, max_size=9))
+shared_tree_block = st.tuples(st.sampled_from(["ctx", "ctx", "top"]), st.lists(st.one_of(st.tuples(st.just("pytree-shared"), st.sampled_from([0, 0, 1, 2]), st.sampled_from([3, 2])),
+                                                                                          st.tuples(st.just("pytree-shared"), st.sampled_from([0, 0, 1, 2]), st.sampled_from([3, 2])),
+                                                                                          st.tuples(st.just("check"), st.just("a"), size)),
+                                                                                min_size=1, max_size=3))
 case_st = st.fixed_dictionaries({
     "workloads": st.one_of(st.lists(st.lists(block_st, min_size=2, max_size=5), min_size=2, max_size=3),
                            st.lists(st.lists(block_st, min_size=2, max_size=5), min_size=2, max_size=3),
                            st.lists(st.lists(block_st, min_size=2, max_size=5), min_size=2, max_size=3),
-                           st.lists(st.lists(dtype_race_block, min_size=1, max_size=2), min_size=2, max_size=3)),
+                           st.lists(st.lists(dtype_race_block, min_size=1, max_size=2), min_size=2, max_size=3),
+                           st.lists(st.lists(shared_tree_block, min_size=1, max_size=3), min_size=2, max_size=3)),
     "segments": st.lists(st.tuples(st.integers(0, 2), st.sampled_from([1, 2, 3, 5, 8, 13, 21, 40, 80])), max_size=10),
     "quantum": st.sampled_from([1, 2, 3, 5, 8, 1, 2]),
     "parent_context": st.sampled_from([False, False, True]),
